@@ -381,7 +381,7 @@ func spec_bhLen(b0 byte) int {
 	return 1
 }
 
-//@ ensures (*Protocol).readBasicHeader C02.bh.accepts
+//@ ensures (*Protocol).readBasicHeader C02.bh.accepts C08.rtmp.basic-header-consumed-exactly
 func ens_bh_accepts(v *Protocol, err error) bool {
 	r, p := v.r, ghost_old_rd_pos(v.r)
 	avail := ghost_rd_len(r) - p
@@ -458,7 +458,7 @@ func ens_rmp_accepts(v *Protocol, old_chunk chunkStream, m *Message, err error) 
 	return (err != nil) == (ghost_rd_len(v.r)-ghost_old_rd_pos(v.r) < n)
 }
 
-//@ ensures (*Protocol).readMessagePayload C01.read.payload.advance C02.read.payload.advance
+//@ ensures (*Protocol).readMessagePayload C01.read.payload.advance C02.read.payload.advance C08.rtmp.payload-consumed-exactly
 func ens_rmp_advance(v *Protocol, old_chunk chunkStream, err error) bool {
 	msg := old_chunk.message
 	n := spec_rmpN(v, msg)
@@ -562,7 +562,7 @@ func spec_mhExt(o chunkStream, f formatType, r io.Reader, p int) bool {
 }
 
 // everything else is accepted as soon as the header bytes are there
-//@ ensures (*Protocol).readMessageHeader C02.mh.accepts
+//@ ensures (*Protocol).readMessageHeader C02.mh.accepts C08.rtmp.header-consumed-exactly
 func ens_rmh_accepts(v *Protocol, old_chunk chunkStream, format formatType, err error) bool {
 	r, p := v.r, ghost_old_rd_pos(v.r)
 	if spec_mhMustReject(old_chunk, format, r, p) {
